@@ -64,6 +64,8 @@ type FuncContract struct {
 	DynAssigns []string // assumed frame of calls through func values inside this function (listed as an assumption)
 	HasDyn     bool
 	CallsOnly  []string // closed-world frame: the only callees the function may call (substrings of callee keys)
+	NeverReads  []string // "T.f": the function (and callees inlined into it) never takes the address of / reads field f of a T
+	NeverTags   []string
 	Cancellable string  // name of a context parameter: every blocking channel operation is an arm of a select that also receives from <ctx>.Done()
 	CancelTags  []string
 	CallsTags  []string
@@ -130,7 +132,7 @@ type ContractFile struct {
 var clauseKW = map[string]bool{"func": true, "requires": true, "ensures": true, "assigns": true, "loop": true,
 	"invariant": true, "modifies": true, "unroll": true, "let": true, "checks": true, "trusted": true, "pure": true,
 	"implements": true, "ghost": true, "define": true, "axiom": true, "lemma": true, "calls": true, "assert": true,
-	"assume": true, "import": true, "noinline": true, "decreases": true, "atcall": true, "callsonly": true, "cancellable": true, "guardedby": true, "dynamiccalls": true}
+	"assume": true, "import": true, "noinline": true, "decreases": true, "atcall": true, "callsonly": true, "cancellable": true, "neverreads": true, "guardedby": true, "dynamiccalls": true}
 
 var tagRe = regexp.MustCompile(`^((?:@(?:C[0-9]+|SAFETY|DET)\s*)+):?\s*`)
 
@@ -443,6 +445,20 @@ func parseContractFile(path, pkgPath string, isSpeclib bool) (*ContractFile, err
 				for _, f := range strings.Split(text, ",") {
 					if f = strings.TrimSpace(f); f != "" {
 						cur.CallsOnly = append(cur.CallsOnly, f)
+					}
+				}
+			case "neverreads":
+				text := l.text
+				if m := tagRe.FindStringSubmatch(text); m != nil {
+					for _, tg := range strings.Fields(m[1]) {
+						cur.NeverTags = append(cur.NeverTags, strings.TrimPrefix(tg, "@"))
+						cur.Tags[strings.TrimPrefix(tg, "@")] = true
+					}
+					text = text[len(m[0]):]
+				}
+				for _, f := range strings.Split(text, ",") {
+					if f = strings.TrimSpace(f); f != "" {
+						cur.NeverReads = append(cur.NeverReads, f)
 					}
 				}
 			case "cancellable":
